@@ -18,6 +18,9 @@ independent owner-matching questions (harness "match").  Integer tokens only.
   xadd <xpod> | xupd <xpod> <xpod> | xdel objKind <xpod>      (informer objects: annotation / phase shapes)
       each followed by the dump:  `i uid node phase matchable n0 n1 n2 a0 a1 a2 k pod*` per reservation (by uid),
       `on`/`mt`/`al` + sorted (node uid) pairs, `fe node uid*` for nodes 1..3
+  cyc uid empty q0 q1 q2 hasAff hasName node a0 a1 a2 t0 t1 t2 chosen unreserve k (uid ownerOK nameMatch affOK)*
+      one scheduling cycle of a normal pod on `node` (a: node allocatable, t: NodeInfo.Requested of the snapshot)
+      -> `matched uid*`, `pre c`, `flt c`, `nf uid 0|1`*, `nom 0|uid` | `nom among uid* 1`, `rsv c` + dump, [`unr` + dump]
   fit ru q0 q1 q2 p0 p1 p2 prePods  -> `fit pods f0 f1 f2` | `fit none`
   nom ru                            -> `nom 0|1` | `nom none`
   own perr k (obj ctrl lbl)*        -> `own 0|1`                                   (MatchOwners)
@@ -95,6 +98,47 @@ def parseOwners : Nat → List Int → Option (List OwnerEval)
 
 def parsePods (l : List Int) : Option (List Pod) := (chunks 5 l).mapM parsePod
 
+def parseCands : Nat → List Int → Option (List CandIn)
+  | 0, [] => some []
+  | k+1, u :: a :: b :: c :: rest =>
+    (parseCands k rest).map (fun t => { uid := u.toNat, ownerOK := a != 0, nameMatch := b != 0, affOK := c != 0 } :: t)
+  | _, _ => none
+
+def parseCyc : List Int → Option CycIn
+  | uid :: empty :: q0 :: q1 :: q2 :: ha :: hn :: node :: a0 :: a1 :: a2 :: t0 :: t1 :: t2 :: ch :: un :: k :: rest =>
+    (parseCands k.toNat rest).map (fun cs =>
+      { pod := { uid := uid.toNat, empty := empty != 0, req := vecOf [q0, q1, q2] },
+        qHas := fun d => empty == 0 && maskPos [q0, q1, q2] d,
+        hasAff := ha != 0, hasName := hn != 0, node := node.toNat,
+        nAlloc := fun d => [a0, a1, a2].getD d 0, nTotal := fun d => [t0, t1, t2].getD d 0,
+        cands := cs, chosen := ch.toNat, unreserve := un != 0 })
+  | _ => none
+
+def showNats (tag : String) (l : List Nat) : String := " ".intercalate (tag :: (sortNat l).map toString)
+
+def runCycle (c : Cache) (x : CycIn) : Cache × List String :=
+  let ms := matchedOf c x
+  let l1 := [showNats "matched" (ms.map (·.uid)), s!"pre {preFilterM c x}"]
+  if preFilterM c x == 2 then (c, l1) else
+  let l2 := if preFilterM c x == 0 then l1 ++ [s!"flt {filterM c x}"] else l1
+  if preFilterM c x == 0 && filterM c x != 0 then (c, l2) else
+  let nfs := (sortNat (ms.map (·.uid))).map (fun u =>
+    match ms.find? (fun r => r.uid == u) with
+    | some r => s!"nf {u} {b2i (nomFilterOK c x r)}"
+    | none => s!"nf {u} ?")
+  let nom := nominateM c x
+  let nomLine := match nom with
+    | .none => "nom 0"
+    | .one u => s!"nom {u}"
+    | .among us => (showNats "nom among" us) ++ " 1"
+  let u := nomUid x nom
+  let (c1, code) := reserveM c x u
+  let l3 := l2 ++ nfs ++ [nomLine, s!"rsv {code}"] ++ dump c1
+  if x.unreserve && code == 0 then
+    let c2 := unreserveM c1 x u code
+    (c2, l3 ++ ["unr"] ++ dump c2)
+  else (c1, l3)
+
 /-- one line: new cache + output lines -/
 def stepLine (c : Cache) (line : String) : Cache × List String :=
   let bad : Cache × List String := (c, ["bad-op"])
@@ -170,6 +214,10 @@ def stepLine (c : Cache) (line : String) : Cache × List String :=
       | some p => let c' := xpodDelete c k.toNat p; (c', dump c')
       | none => bad
     | _ => bad
+  | "cyc" :: rest =>
+    match (ints? rest).bind parseCyc with
+    | some x => runCycle c x
+    | none => bad
   | "fit" :: rest =>
     match ints? rest with
     | some [ru, q0, q1, q2, p0, p1, p2, pp] =>
